@@ -2,4 +2,6 @@
 namespace CGV.RangeTaskGen
 def defaultRegionsPerTask : Nat := 128
 def resolvedCacheSize : Nat := 2048
+def gcStateCacheSeconds : Nat := 100
+def gcInaccuracySeconds : Nat := 10
 end CGV.RangeTaskGen
